@@ -37,6 +37,9 @@ type Violation struct {
 	Obligation string         `json:"obligation,omitempty"`
 	NoInput    bool           `json:"no_failing_input_found"`
 	Signature  string         `json:"signature,omitempty"` // for matching known findings
+	// shrink, when set, reduces the failing input (delta debugging with the violation's own oracle); it is run only for the
+	// violation that gets reported
+	shrink func() map[string]any
 }
 
 // Ctx is the state of one run of one property's check.
@@ -300,6 +303,11 @@ func verdict(ctx *Ctx) int {
 	code := 0
 	nviol := 0
 	if len(real) > 0 {
+		if real[0].shrink != nil {
+			if in := real[0].shrink(); in != nil {
+				real[0].Input = in
+			}
+		}
 		v := real[0]
 		path := writeReplay(ctx, v, real)
 		fmt.Printf("VIOLATION property=%s replay=%s\n", ctx.Prop, path)
